@@ -1,6 +1,6 @@
 """Ledger family shared by C12 (inventory homomorphism / running balance) and C13 (OPEN / CLOSE / CLEAR).
 
-Family  = all sequences of <= n transactions over the 8-template alphabet TEMPLATES, the i-th
+Family  = all sequences of <= n transactions over the 9-template alphabet TEMPLATES, the i-th
           transaction of a sequence dated DATES[i] (strictly increasing, three different months), on top
           of a fixed preamble (opens for Assets / Liabilities / Income / Expenses / Equity accounts,
           including the five Equity accounts beancount's summarisation posts to) and a fixed schedule of
@@ -55,10 +55,12 @@ TEMPLATES = {
     'conv': ['Assets:Cash  -125.00 USD', 'Assets:Cash  100.00 EUR @ 1.25 USD'],
     'exp': ['Expenses:Food  30.00 EUR', 'Liabilities:Card  -30.00 EUR'],
     'inc': ['Assets:Cash  500.00 USD', 'Income:Salary  -500.00 USD'],
+    # a lot held at a per-unit cost of exactly zero (grant / spin-off): weight 0.00 USD, balances by itself
+    'grant': ['Assets:Inv  3 HOOL {{0.00 USD}}', 'Income:Gains  0.00 USD'],
 }
 ALPHABET = list(TEMPLATES)
 # "feature weight" used to order the family most-feature-rich first (C13 picks a prefix of that order)
-FEATURE = {'usd': 1, 'eur': 2, 'buy1': 4, 'buy2': 4, 'sell': 6, 'conv': 5, 'exp': 3, 'inc': 3}
+FEATURE = {'usd': 1, 'eur': 2, 'buy1': 4, 'buy2': 4, 'sell': 6, 'conv': 5, 'exp': 3, 'inc': 3, 'grant': 3}
 
 # terminating EUR/USD rates (the reciprocal of each is exact) and HOOL prices; rotated by the seed
 EUR_RATES = ['1.25', '0.8', '2.5', '0.4', '0.5', '2']
